@@ -226,3 +226,60 @@ def sphere_packing_equal(n: int, k: int, t: int) -> bool:
 
 def gray(i: int) -> int:
     return i ^ (i >> 1)
+
+
+class GFE:
+    """Element of GF(2^m) = GF(2)[x]/(mod) in the checker's own arithmetic (operators as the repository's field
+    elements offer them: +, *, ** with an integer exponent, ==)."""
+
+    __slots__ = ("v", "mod")
+
+    def __init__(self, v: int, mod: int):
+        self.v = v
+        self.mod = mod
+
+    def _c(self, o):
+        if isinstance(o, GFE):
+            return o
+        if isinstance(o, int) and o in (0, 1):
+            return GFE(o, self.mod)
+        raise TypeError("not a field element")
+
+    def __add__(self, o):
+        return GFE(self.v ^ self._c(o).v, self.mod)
+
+    __radd__ = __add__
+    __sub__ = __add__
+
+    def __mul__(self, o):
+        return GFE(pmulmod(self.v, self._c(o).v, self.mod), self.mod)
+
+    __rmul__ = __mul__
+
+    def __pow__(self, e):
+        if not isinstance(e, int) or isinstance(e, bool):
+            raise TypeError("exponent")
+        order = (1 << pdeg(self.mod)) - 1
+        if self.v == 0:
+            if e <= 0:
+                raise ZeroDivisionError("0 ** non-positive")
+            return GFE(0, self.mod)
+        return GFE(ppowmod(self.v, e % order, self.mod), self.mod)
+
+    def __eq__(self, o):
+        try:
+            return self.v == self._c(o).v
+        except TypeError:
+            return False
+
+    def __ne__(self, o):
+        return not self.__eq__(o)
+
+    def __hash__(self):
+        return hash((self.v, self.mod))
+
+    def __bool__(self):
+        return self.v != 0
+
+    def __repr__(self):
+        return f"GF({self.v:#b})"
